@@ -165,8 +165,25 @@ def check_case(case, rec):
         case = dict(case, csv=csv_path())
     text = source_text(case)
     vlog.reset()
+    build = case.get("build", "source") if not builtin else "source"
     try:
-        prog = Program.from_source(text, libraries=EEMS_CSV_LIBRARIES if builtin else LIBS)
+        if build == "source":
+            prog = Program.from_source(text, libraries=EEMS_CSV_LIBRARIES if builtin else LIBS)
+        else:
+            # the same graph through add_command; in "api_objects" every reference to a command that exists already
+            # is handed over as the Command object itself (a cycle needs at least one reference by name)
+            prog = Program(libraries=LIBS)
+            node_cls = prog.find_command_class("Node")
+            ref = lambda c: prog.commands[name(c)] if build == "api_objects" and name(c) in prog.commands else name(c)
+            for i in case["order"]:
+                refs, kinds = adj[i], case["kinds"][i]
+                direct = [c for c, k in zip(refs, kinds) if k == "d"]
+                args = {key: ref(c) for key, c in zip(("A", "B", "C"), direct)}
+                ls = [c for c, k in zip(refs, kinds) if k != "d"] + direct[3:]
+                if ls:
+                    args["L"] = [ref(c) for c in ls]
+                prog.add_command(node_cls, name(i), args)
+            rec.label("build:" + build)
     except Exception as exc:
         return [Failure("load_raises:%s" % type(exc).__name__, "%r\n%s" % (exc, text))]
     on = cycle_nodes(n, adj)
@@ -268,6 +285,9 @@ def small_graphs(ctx):
                 orders = list(itertools.permutations(range(n)))
                 for order in orders:
                     yield {"n": n, "adj": adj, "kinds": kinds, "order": list(order), "lib": "testlib", "pick": bits + len(kinds[0])}
+                    if (bits + sum(order[:1])) % 3 == 0 or not ctx.quick:
+                        for build in ("api", "api_objects"):
+                            yield {"n": n, "adj": adj, "kinds": kinds, "order": list(order), "lib": "testlib", "pick": bits + len(kinds[0]), "build": build}
             if n <= 2 or bits % 7 == 0:
                 for outs in range(1 << n):
                     for poff in range(n + 1):
@@ -318,7 +338,7 @@ def larger_graphs(draw):
     lib = draw(st.sampled_from(["testlib", "testlib", "testlib", "builtin"]))
     return {"n": n, "adj": adj, "kinds": kinds, "order": order, "lib": lib, "fuzzy": draw(st.booleans()), "pick": draw(st.integers(0, 9)),
             "voff": draw(st.integers(0, 6)), "poff": draw(st.integers(0, 5)), "sat": draw(st.sampled_from(["mixed", "true", "false", "zero"])),
-            "printvars": draw(st.sampled_from([None, None, None, 0, 1, 5, 31, 10]))}
+            "printvars": draw(st.sampled_from([None, None, None, 0, 1, 5, 31, 10])), "build": draw(st.sampled_from(["source", "source", "api", "api_objects"]))}
 
 
 PARTS = {"graph": check_case}
